@@ -306,6 +306,9 @@ type serverOpts struct {
 	dnscrypt       bool
 	second         bool
 
+	// reqTimeout, if set, gives every request a context with this deadline.
+	reqTimeout time.Duration
+
 	// setB starts the second group of servers (fresh twin).
 	setB bool
 }
@@ -313,13 +316,18 @@ type serverOpts struct {
 func startServers(s *kernel.Sim, n *simnet.Net, p *pipeline, o serverOpts) (sv *servers) {
 	sv = &servers{n: n, p: p, metrics: &metricsListener{s: s}}
 	base := func(name, addr string) dnsserver.ConfigBase {
-		return dnsserver.ConfigBase{
+		cb := dnsserver.ConfigBase{
 			Name:         name,
 			Addr:         addr,
 			Handler:      p,
 			Metrics:      sv.metrics,
 			ListenConfig: n,
 		}
+		if o.reqTimeout > 0 {
+			cb.RequestContext = dnsserver.NewTimeoutContextConstructor(o.reqTimeout)
+		}
+
+		return cb
 	}
 
 	dnsConf := func(name, addr string) dnsserver.ConfigDNS {
